@@ -98,7 +98,14 @@ class ConnectionManager:
 
         # iterate over a copy - a callback may unregister itself (or others)
         for connection_state_change_cb in tuple(self._connection_state_changed_cbs):
-            connection_state_change_cb(state)
+            try:
+                connection_state_change_cb(state)
+            except Exception:  # pylint: disable=broad-exception-caught
+                # the other callbacks are still notified, and the interface that
+                # reported the change goes on with its connect or disconnect
+                logger.exception(
+                    "Unexpected error in connection_state_changed_cb for %s", state
+                )
 
     @property
     def state(self) -> XknxConnectionState:
